@@ -22,8 +22,8 @@ RULE = ("(a) random strings over a weighted alphabet (Jaqal tokens and character
 ASSUMPTIONS = ["termination restated as a step budget of 2e5 + 2e3*len(text) line events inside jaqalpaq modules per call",
                "texts declaring registers larger than 6 qubits, or whose loops unroll to more than 20000 statement executions, are parsed but not executed (resource use proportional to the program, not termination)",
                "ImportError is accepted only when the program names a pulse module and pulses are auto-loaded"]
-TIERS = {"quick": {"shards": 8, "budget_s": 55}, "thorough": {"shards": 16, "budget_s": 480}}
-REQUIRE = {"hang-probes": 15, "calls": 20000, "class:random": 1000, "class:truncation": 2000, "class:mutant": 2000, "class:template": 200,
+TIERS = {"quick": {"shards": 8, "budget_s": 100}, "thorough": {"shards": 16, "budget_s": 480}}
+REQUIRE = {"class:deep-nesting-from-deep-stack": 40, "hang-probes": 15, "calls": 20000, "class:random": 1000, "class:truncation": 2000, "class:mutant": 2000, "class:template": 200,
            "outcome:JaqalParseError": 2000, "outcome:JaqalError": 500, "outcome:ok": 500, "position-checked": 2000,
            "histories": 8, "history-steps": 300, "fresh-single-text-runs": 8, "illegal-character-texts": 200,
            "relative-import-probes": 1}
@@ -36,6 +36,8 @@ ALPH = (["register", "map", "let", "macro", "loop", "from", "usepulses", "subcir
            "é", "π", "☃", "\x7f"])
 
 TEMPLATES = [
+    "register q[1]\nX '" + "1" * 20000 + "'\n",
+    "register q[1]\nprepare_all\nX q[0] '" + "10" * 9000 + "'\nmeasure_all\n",
     "",
     "\n\n",
     "register q[2]\nregister r[2]\nprepare_all\nmeasure_all\n",
@@ -157,7 +159,16 @@ def call(entry, text, flags=None, budget=None):
         if isinstance(c, tuple):
             c = c[0]
         state["circuit"] = c
-        if entry == "run":
+        if entry == "run" and flags.get("stack"):
+            # parsed by a caller near the top of the stack, run by one much further down
+            return deeper(int(flags["stack"]), lambda: run_part(c))
+        return run_part(c) if entry == "run" else c
+
+    def deeper(k, fn):
+        return fn() if k <= 0 else deeper(k - 1, fn)
+
+    def run_part(c):
+        if True:
             regs = [r for r in c.registers.values() if getattr(r, "fundamental", False)]
             size = None
             try:
@@ -211,6 +222,8 @@ def unrolled_bound(c):
     multiplied along the nesting, macro calls followed)."""
     from jaqalpaq.core import BlockStatement, LoopStatement, GateStatement, Macro
 
+    memo = {}
+
     def n(s, depth=0):
         if depth > 60:
             return 1
@@ -225,7 +238,10 @@ def unrolled_bound(c):
         if isinstance(s, BlockStatement):
             return 1 + sum(n(x, depth + 1) for x in s.statements)
         if isinstance(s, GateStatement) and isinstance(s.gate_def, Macro):
-            return 1 + n(s.gate_def.body, depth + 1)
+            k = id(s.gate_def)
+            if k not in memo:
+                memo[k] = n(s.gate_def.body, depth + 1)
+            return 1 + memo[k]
         return 1
 
     try:
@@ -345,6 +361,8 @@ def entries_for(rng, text):
     out = [("sexpr", None)]
     out.append(("parse", random_flags(rng)))
     out.append(("run", {"native": True}))
+    if rng.random() < 0.2:
+        out.append(("run", {}))  # a circuit parsed without any gate set handed to the emulator
     return out
 
 
@@ -494,6 +512,13 @@ def relative_import_probe(ctx):
         if a != b:
             rec.violation(sig("C16", "sticky-state:relative-import-depends-on-earlier-imports"), {"fresh": a, "preloaded": b},
                           {"kind": "import", "text": text})
+        # a name that exists as a plain directory (no __init__.py): not a module, the usual import failure
+        os.makedirs(os.path.join(d, "vfplaindir"), exist_ok=True)
+        o, _info = call_import("from .vfplaindir usepulses *\nregister q[1]\n", d)
+        rec.count("relative-import-probes")
+        if o[0] not in ("ImportError", "JaqalError", "JaqalParseError"):
+            rec.violation(sig("C16", "wrong-exception:%s:relative-pulse-import-of-a-plain-directory" % o[0].replace("other:", "")),
+                          {"outcome": list(o)}, {"kind": "import", "text": "from .vfplaindir usepulses *"})
         minimal_import_probe(rec, d, text)
         fs_history_probe(rec, d, text)
         # history: absolute import of the same name before and after a relative import of it
@@ -636,6 +661,10 @@ HANG_TEXTS = (
      ("dotted-identifier", "a" + ".a" * 120 + ". x"), ("dotted-identifier", "from " + "a." * 100 + " usepulses *"),
      ("number-runs", "g " + "1" * 60 + "." + "e" * 3), ("number-runs", "g 1." + "1e" * 40), ("number-runs", "g " + "+-" * 60 + "1"),
      ("binary-literal", "g '" + "01" * 100), ("bracket-run", "<" * 300), ("bracket-run", "{" * 300 + "}" * 299),
+     ("macro-doubling-chain", "register q[1]\nmacro m0 a { X a }\n" + "".join("macro m%d a { m%d a ; m%d a }\n" % (k, k - 1, k - 1) for k in range(1, 41))
+      + "subcircuit { m40 q[0] }\n"),
+     ("macro-doubling-chain", "register q[1]\nmacro m0 a { X a }\n" + "".join("macro m%d a { m%d a ; m%d a }\n" % (k, k - 1, k - 1) for k in range(1, 41))
+      + "< m40 q[0] >\n"),
      ("bar-run", "< " + "| " * 300 + ">"), ("semicolon-run", ";" * 2000), ("newline-run", "\n" * 5000 + "@")])
 
 HANG_CHILD = r"""
@@ -704,7 +733,7 @@ def shard(ctx):
         if not ctx.mine(j):
             continue
         for entry, flags in (("sexpr", None), ("parse", {}), ("parse", {"native": True, "expand_macro": True, "expand_let_map": True}),
-                             ("run", {"native": True}), ("parse", {"autoload": True})):
+                             ("run", {"native": True}), ("run", {}), ("parse", {"autoload": True})):
             process(ctx, {"text": t, "entry": entry, "flags": flags}, "template")
         pool.append((t, "run", {"native": True}))
     n = ctx.scale(1500, 60000)
@@ -756,6 +785,13 @@ def shard(ctx):
     histories(ctx, pool)
     if ctx.index == 0:
         relative_import_probe(ctx)
+    if ctx.index == 1 % ctx.nshards:
+        # nestings close to the interpreter's recursion limit, entered from callers whose own stack is already deep:
+        # whichever pass runs out of stack, what comes out is a JaqalError (or a result)
+        for d in range(90, 176, 5):
+            t = "register q[1]\nprepare_all\n" + "{<" * d + "X q[0]" + ">}" * d + "\nmeasure_all\n"
+            for k in (0, 150, 300, 450):
+                process(ctx, {"text": t, "entry": "run", "flags": {"native": True, "stack": k}}, "deep-nesting-from-deep-stack")
     monitors.report_contracts(rec)
 
 
